@@ -111,7 +111,9 @@ OpsC01b ==  \* the life of ONE code and its tokens over time: replay at every ag
 OpsC02 ==   \* client / redirect / lifetime binding; smuggled parameters; grant immutability
   (IF CanAuthz THEN {Authz(c, rt, <<"openid", "offline", "a", "b">>, gr, au, rd, "none") :
         c \in {"A", "P"}, rt \in {"code", "code_idt"}, gr \in {Full, <<"offline", "a">>}, au \in {<<>>, <<AudA>>},
-        rd \in {"sent"}} \cup {Authz(c, "code", <<"offline", "a">>, <<"a">>, <<>>, "omit", "none") : c \in {"A", "P"}} ELSE {})
+        rd \in {"sent"}} \cup {Authz(c, "code", <<"offline", "a">>, <<"a">>, <<>>, "omit", "none") : c \in {"A", "P"}}
+        \cup {AuthzG("A", rt, <<"offline", "a">>, <<"offline", "a">>, <<AudA, AudB>>, ga, "sent", "none") : rt \in {"code", "code_token"}, ga \in {<<AudA>>, <<>>}}    \* two audiences requested, one / none granted
+   ELSE {})
   \cup (IF CanMint THEN
          {Redeem(c, a, k, rd, "none", xs, xa) : k \in Codes, c \in {"A", "B", "P"}, a \in {"ok", "bad", "none"},
               rd \in {"same", "absent", "diff", "enc"}, xs \in {<<>>, <<"b", "openid">>}, xa \in {<<>>, <<AudB>>}}
@@ -146,7 +148,8 @@ OpsC04b ==  \* the life of ONE grant over time: rotation and reuse at every age 
 
 OpsC05 ==   \* refresh never widens, never crosses clients; issuance rule
   (IF CanAuthz THEN {Authz(c, "code", <<"openid", "offline", "a", "b">>, gr, au, "sent", "none") :
-        c \in {"A", "P"}, gr \in {Full, <<"a", "b">>, <<"offline", "b">>}, au \in {<<>>, <<AudA>>, <<AudA, AudB>>}} ELSE {})
+        c \in {"A", "P"}, gr \in {Full, <<"a", "b">>, <<"offline", "b">>}, au \in {<<>>, <<AudA>>, <<AudA, AudB>>}}
+        \cup {AuthzG("A", "code", Full, Full, <<AudA, AudB>>, <<AudA>>, "sent", "none")} ELSE {})
   \cup (IF CanMint THEN {Redeem(Owner(k), "ok", k, "same", "none", <<>>, <<>>) : k \in {x \in Codes : st.S.code[x].active}} ELSE {})
   \cup (IF CanMint THEN {Password("A", "ok", "ok", sc, au) : sc \in {<<"a">>, <<"offline", "a">>}, au \in {<<>>, <<AudA>>}} ELSE {})
   \cup (IF CanMint THEN {Refresh(c, a, j, xs, xa) : j \in RTs, c \in {"A", "B", "P"}, a \in {"ok", "bad"},
